@@ -362,6 +362,7 @@ class List(list, base.Symbolic, pg_typing.CustomTyping):
     # Reverse the updates so the update is from the smallest number to
     # the largest.
     updates.reverse()
+    self._sync_children()
     return updates
 
   def _sym_nondefault(self) -> Dict[int, Any]:
@@ -466,8 +467,17 @@ class List(list, base.Symbolic, pg_typing.CustomTyping):
 
   def _on_change(self, field_updates: Dict[utils.KeyPath, base.FieldUpdate]):
     """On change event of List."""
-    # Do nothing for now to handle changes of List.
+    self._sync_children()
+    if self._onchange_callback is not None:
+      self._onchange_callback(field_updates)
 
+  def _sync_children(self) -> None:
+    """Removes deleted items and re-addresses the children by their index.
+
+    This is done by every mutator that shifts, deletes or reorders elements
+    (not only upon change notification), so the list is consistent also when
+    notification is disabled or skipped.
+    """
     # NOTE(daiyip): Remove items that are MISSING_VALUES.
     keys_to_remove = []
     for i, item in self.sym_items():
@@ -481,9 +491,6 @@ class List(list, base.Symbolic, pg_typing.CustomTyping):
     for idx, item in self.sym_items():
       if isinstance(item, base.TopologyAware) and item.sym_path.key != idx:
         item.sym_setpath(utils.KeyPath(idx, self.sym_path))
-
-    if self._onchange_callback is not None:
-      self._onchange_callback(field_updates)
 
   def _parse_slice(self, index: slice) -> Tuple[int, int, int]:
     return index.indices(len(self))
@@ -564,6 +571,7 @@ class List(list, base.Symbolic, pg_typing.CustomTyping):
         update = self._set_item_without_permission_check(start + i * step, r)
         if update is not None:
           updates.append(update)
+      self._sync_children()
       if flags.is_change_notification_enabled() and updates:
         self._notify_field_updates(updates)
     elif isinstance(index, numbers.Integral):
@@ -603,6 +611,7 @@ class List(list, base.Symbolic, pg_typing.CustomTyping):
     if isinstance(old_value, base.TopologyAware):
       old_value.sym_setparent(None)
       old_value.sym_setpath(utils.KeyPath())
+    self._sync_children()
 
     if flags.is_change_notification_enabled():
       self._notify_field_updates([
@@ -669,6 +678,7 @@ class List(list, base.Symbolic, pg_typing.CustomTyping):
 
     update = self._set_item_without_permission_check(
         index, mark_as_insertion(value))
+    self._sync_children()
     if flags.is_change_notification_enabled() and update:
       self._notify_field_updates([update])
 
@@ -747,12 +757,14 @@ class List(list, base.Symbolic, pg_typing.CustomTyping):
     if base.treats_as_sealed(self):
       raise base.WritePermissionError('Cannot sort a sealed List.')
     super().sort(key=key, reverse=reverse)
+    self._sync_children()
 
   def reverse(self) -> None:
     """Reverse the elements of the list in place."""
     if base.treats_as_sealed(self):
       raise base.WritePermissionError('Cannot reverse a sealed List.')
     super().reverse()
+    self._sync_children()
 
   def custom_apply(
       self,
